@@ -24,6 +24,7 @@ int main(void) {
     printf("const SIZEOF_POLY %u\n", (unsigned)sizeof(gf_poly));
     printf("const SIZEOF_PHRASE %u\n", (unsigned)sizeof(polyseed_phrase));
     printf("const SIZEOF_STR %u\n", (unsigned)sizeof(polyseed_str));
+    printf("const SIZEOF_IDX %u\n", (unsigned)(sizeof(uint_fast16_t) * POLYSEED_NUM_WORDS));
     printf("const SECRET_BUFFER_SIZE %u\n", (unsigned)SECRET_BUFFER_SIZE);
     printf("const ST_OK %d\n", (int)POLYSEED_OK);
     printf("const ST_NUM_WORDS %d\n", (int)POLYSEED_ERR_NUM_WORDS);
